@@ -344,7 +344,7 @@ def _text_shards(tier):
     if tier == "quick":
         return [({"n": n}, 300) for n in range(3)] + [({"n": 3, "c0": c}, 300) for c in range(len(ALPHA))]
     return ([({"n": n}, 600) for n in range(3)] + [({"n": 3, "c0": c}, 900) for c in range(len(ALPHA))]
-            + [({"n": 4, "c0": c, "c1": d}, 2400) for c in range(len(ALPHA)) for d in range(len(ALPHA))])
+            + [({"n": 4, "c0": c, "c1": d}, 2400) for c in (0, 2, 3, 5) for d in (0, 2, 3, 5)])
 
 
 HARNESSES = [
@@ -371,7 +371,7 @@ HARNESSES = [
                              "newline, quote}; UTF-8 with declared charset or ISO-8859-1 with none; every pair of cut "
                              "positions 0 <= i <= j <= len(bytes) (cuts inside multi-byte sequences, empty chunks); also with the last byte removed (a byte string "
                              "ending inside a multi-byte sequence must fail exactly as whole-string decoding does)",
-                    "thorough": "0..4 code points"},
+                    "thorough": "0..3 code points as quick; 4 code points whose first two are from {A, e-acute, euro, emoji}"},
             rule="non-trivial = some multi-byte character or an interior cut", twin_fix={"n": 2},
             fidelity=lambda seed: [(2, 2, 3, 0, 0, False, i, j, t) for i in range(5) for j in range(i, 5) for t in (False, True)],
             observe=lambda n, c0, c1, c2, c3, cn, i, j, t: (lambda o: None if o is None else o["got"])(run_text([c0, c1, c2, c3][:n], cn, i, j, t)),
